@@ -192,6 +192,19 @@ func (lc *linCtx) proveAll(b *ssa.BasicBlock, extra []cons, g cons) (bool, strin
 		}
 		H = append(H, lc.factsFor(forms, vi)...)
 		if !entails(H, g) {
+			// a disequality x != y splits the path class into x < y and x > y
+			split := false
+			for _, d := range lc.diseqAt(b) {
+				lo := append(append([]cons{}, H...), cons{d.addc(1), "below the excluded value"})
+				hi := append(append([]cons{}, H...), cons{d.scale(-1).addc(1), "above the excluded value"})
+				if entails(lo, g) && entails(hi, g) {
+					split = true
+					break
+				}
+			}
+			if split {
+				continue
+			}
 			if !lc.noElemFallback {
 				if ok, det := lc.proveViaElemSources(g); ok {
 					return true, det
